@@ -172,7 +172,12 @@ func (s *SCEVGenericExpr) String() string {
 	return fmt.Sprintf("(%s %s %s)", s.X.String(), s.Op.String(), s.Y.String())
 }
 func (s *SCEVGenericExpr) StringWithRenamer(r Renamer) string {
-	return fmt.Sprintf("(%s %s %s)", s.X.StringWithRenamer(r), s.Op.String(), s.Y.StringWithRenamer(r))
+	x, y := s.X.StringWithRenamer(r), s.Y.StringWithRenamer(r)
+	// Operand order of a commutative operation carries no meaning: render it canonically.
+	if (s.Op == token.ADD || s.Op == token.MUL) && x > y {
+		x, y = y, x
+	}
+	return fmt.Sprintf("(%s %s %s)", x, s.Op.String(), y)
 }
 func (s *SCEVGenericExpr) Name() string                  { return "scev_expr" }
 func (s *SCEVGenericExpr) Type() types.Type              { return types.Typ[types.Int] }
